@@ -1329,8 +1329,20 @@ func ruleCachePrune(c *RC) *RuleResult {
 				if p, ok := el.(*types.Pointer); ok {
 					el = p.Elem()
 				}
-				if namedName(el) == "inbox" {
+				// (the inbox type by its role — private names are free to change —, else by its shape: a struct of the
+				// root package made of per-kind maps)
+				if n := namedName(el); n != "" && c.Prog.typeRole(n) == "inbox" {
 					mapField = st.Field(i)
+				} else if est, ok := el.Underlying().(*types.Struct); ok && mapField == nil && est.NumFields() >= 2 {
+					all := true
+					for j := 0; j < est.NumFields(); j++ {
+						if _, isMap := est.Field(j).Type().Underlying().(*types.Map); !isMap {
+							all = false
+						}
+					}
+					if b, isB := m.Key().Underlying().(*types.Basic); all && isB && b.Info()&types.IsInteger != 0 && namedPkgPath(el) == modPath {
+						mapField = st.Field(i)
+					}
 				}
 			}
 		}
